@@ -127,6 +127,7 @@ type Unit struct {
 	assertsSeen map[string]bool
 	nonNil      map[string]bool
 	axiomsUsed  []string
+	globalInvsUsed []string
 	alloc0      string
 }
 
